@@ -1,7 +1,7 @@
 #!/usr/bin/env python3
 """Assembles DESIGN.md from docs-src/{head,sec6,tail,summary}.md plus tables generated from
 known_findings.json, /repo's commit log and seeded/*/meta.json."""
-import json, os, subprocess, glob
+import json, os, subprocess, glob, re
 ROOT = os.path.dirname(os.path.dirname(os.path.abspath(__file__)))
 def rd(n): return open(os.path.join(ROOT, "docs-src", n)).read()
 d = json.load(open(os.path.join(ROOT, "known_findings.json")))
@@ -29,6 +29,18 @@ for m in sorted(glob.glob(os.path.join(ROOT, "seeded", "*", "meta.json"))):
     j = json.load(open(m)); sid = os.path.basename(os.path.dirname(m))
     rows.append("| %s | %s | %s | %s |" % (sid, short(j.get("summary", ""), 110), short(j.get("needs", ""), 90), short(j.get("detected_by", ""), 150)))
 sec11 = ["", "| seeded change | what was changed | needs | detected by |", "|---|---|---|---|"] + rows + [""]
-out = rd("head.md") + rd("sec6.md") + "\n---------------------------------------------------------------------------------------\n\n" + "\n".join(sec7) + rd("tail.md") + "\n".join(sec11) + rd("summary.md")
+counts = []
+for i in range(1, 21):
+    pid = "C%02d" % i
+    src = open(os.path.join(ROOT, "coq", "theories", "Properties", pid + ".v"), encoding="utf-8").read()
+    counts.append("%s: %d" % (pid, len(re.findall(r"^\s*Theorem\s+\w+", src, flags=re.M))))
+nfiles = sum(len([f for f in fs if f.endswith(".v")]) for _, _, fs in os.walk(os.path.join(ROOT, "coq", "theories")) if "gen" not in _)
+nlines = 0
+for dp, dn, fs in os.walk(os.path.join(ROOT, "coq", "theories")):
+    for f in fs:
+        if f.endswith(".v") and "/gen" not in dp:
+            nlines += sum(1 for _ in open(os.path.join(dp, f), encoding="utf-8"))
+extra = "\nPinned theorems per property (counted from `Properties/*.v` when this file was generated): " + ", ".join(counts) + ". Hand-written Coq: %d files, %d lines (regenerated tables not counted).\n" % (nfiles, nlines)
+out = rd("head.md") + rd("sec6.md") + "\n---------------------------------------------------------------------------------------\n\n" + "\n".join(sec7) + rd("tail.md") + "\n".join(sec11) + rd("summary.md") + extra
 open(os.path.join(ROOT, "DESIGN.md"), "w").write(out)
 print("DESIGN.md written:", len(out.split("\n")), "lines;", len(fixed), "fixed,", len(openf), "open,", len(rows), "seeded")
